@@ -113,6 +113,68 @@ func jobC11(c *rt.Ctx) {
 	c.Require("fast/nib", "fast/carry-run", "fast/boundary", "fast/clamp-bits", "generic/value", "generic/low-order-error", "generic/noncanonical-u", "chain")
 	nine := make([]byte, 32)
 	nine[0] = 9
+	// the exported Basepoint slice is a value callers hold: appending to it (a transcript, a wire buffer)
+	// never changes its 32 bytes - and must not reach library state either, should the slice have spare
+	// capacity. Done once per process, BEFORE everything else: every later check runs after it. The
+	// appended bytes are the RFC result of a case evaluated right below.
+	{
+		hs := sha512.Sum512([]byte("c11-append-scalar"))
+		wantA := ref.X25519(hs[:32], nine)
+		_ = append(Basepoint, wantA...)
+		_ = append(Basepoint[:len(Basepoint):cap(Basepoint)], wantA...)
+		if c.Take() {
+			c.Distinct("basepoint-append", true)
+			outA, errA := X25519(hs[:32], append([]byte{}, nine...))
+			lo := make([]byte, 32)
+			lo[0] = 1
+			outL, errL := X25519(hs[:32], lo)
+			outZ, errZ := X25519(hs[:32], make([]byte, 32))
+			c.Step(3)
+			if errA != nil || !bytes.Equal(outA, wantA) || errL == nil || outL != nil || errZ == nil || outZ != nil || Basepoint[0] != 9 || len(Basepoint) != 32 {
+				c.Violation("C11 append-to-exported-slice", fmt.Sprintf("after the caller appended to the exported Basepoint slice (len %d, cap %d): X25519(s, 9) = %x, %v (RFC: %x); X25519(s, 1) = %x, %v; X25519(s, 0) = %x, %v (low-order points must be refused)", len(Basepoint), cap(Basepoint), outA, errA, wantA, outL, errL, outZ, errZ),
+					map[string]interface{}{"cap_basepoint": cap(Basepoint), "appended": ref.Hex(wantA)})
+			}
+		}
+	}
+	// held results of X25519 (fast and generic path alternating), as for the conversions in C12
+	c.Require("held-results")
+	if c.Take() {
+		c.Class("held-results")
+		c.Distinct("held-x25519", true)
+		var got, want [][]byte
+		for i := 0; i < 70; i++ {
+			hs := sha512.Sum512([]byte{0x48, byte(i)})
+			pt := Basepoint
+			if i%2 == 1 {
+				pt = append([]byte{}, hs[32:]...)
+			}
+			o, err := X25519(hs[:32], pt)
+			if err != nil {
+				o = nil
+			}
+			got = append(got, o)
+			w := ref.X25519(hs[:32], pt)
+			if bytes.Equal(w, make([]byte, 32)) {
+				w = nil
+			}
+			want = append(want, w)
+		}
+		c.Step(70)
+	heldX:
+		for i := range got {
+			_ = append(got[i], bytes.Repeat([]byte{0xEE}, 72)...)
+			full := got[i][:cap(got[i])]
+			for j := len(got[i]); j < len(full); j++ {
+				full[j] = 0xDD
+			}
+			for j := range got {
+				if !bytes.Equal(got[j], want[j]) {
+					c.Violation("C11 held-results", fmt.Sprintf("X25519 result %d changed (or was wrong) after the caller appended to result %d", j, i), map[string]interface{}{"held": j, "appended_to": i})
+					break heldX
+				}
+			}
+		}
+	}
 	checkFast := func(class string, s []byte) {
 		want := ref.X25519(s, nine)
 		sc := append([]byte{}, s...)
@@ -694,6 +756,58 @@ func jobC12(c *rt.Ctx) {
 		}
 		if c.WantSample() {
 			c.Sample(map[string]interface{}{"seed": ref.Hex(seed), "x25519_private": ref.Hex(xpriv), "x25519_public": ref.Hex(wantPub)})
+		}
+	}
+	// results belong to the caller, up to their CAPACITY, and stay valid while held: several results are
+	// kept, the caller appends to / overwrites the spare capacity of each, and every other result held
+	// must still read as it did (results carved out of one shared block would run into each other)
+	c.Require("held-results")
+	for g := 0; g < 8; g++ {
+		if !c.Take() {
+			continue
+		}
+		c.Class("held-results")
+		c.Distinct(fmt.Sprintf("held %d", g), true)
+		type held struct{ got, want []byte }
+		var hs []held
+		for i := 0; i < 70; i++ {
+			seed := make([]byte, 32)
+			seed[0], seed[1], seed[2] = byte(i), byte(g), 0x7c
+			k := ed25519.NewKeyFromSeed(seed)
+			var got []byte
+			var want []byte
+			if i%2 == 0 {
+				xp, _ := EdPublicKeyToX25519(k.Public().(ed25519.PublicKey))
+				_, y := ref.Decode(k[32:])
+				_ = y
+				pt, _ := ref.Decode(k[32:])
+				_, yy := pt.Affine()
+				got, want = xp, ref.EdToMontU(yy)
+			} else {
+				hh := sha512.Sum512(seed)
+				hh[0] &= 248
+				hh[31] &= 127
+				hh[31] |= 64
+				got, want = EdPrivateKeyToX25519(k), hh[:32]
+			}
+			hs = append(hs, held{got, append([]byte{}, want...)})
+		}
+		c.Step(70)
+	heldLoop:
+		for i := range hs {
+			// the caller uses result i as its own buffer: append beyond its length, overwrite its capacity
+			_ = append(hs[i].got, bytes.Repeat([]byte{0xEE}, 40)...)
+			full := hs[i].got[:cap(hs[i].got)]
+			for j := len(hs[i].got); j < len(full); j++ {
+				full[j] = 0xDD
+			}
+			for j := range hs {
+				if !bytes.Equal(hs[j].got, hs[j].want) {
+					c.Violation("C12 held-results", fmt.Sprintf("conversion result %d changed (or was wrong) after the caller appended to conversion result %d: %x, expected %x", j, i, hs[j].got, hs[j].want),
+						map[string]interface{}{"held": j, "appended_to": i, "observed": ref.Hex(hs[j].got), "expected": ref.Hex(hs[j].want), "cap": cap(hs[i].got)})
+					break heldLoop
+				}
+			}
 		}
 	}
 	c12Strings(c, "C12")
